@@ -376,3 +376,91 @@ def replay_refines(unit, model):
         info["reproduced"] = False
         info["note"] = "replay harness error: %s: %s" % (type(e).__name__, e)
     return info
+
+
+class NativeInterp:
+    """the interpreter's interface executed by CPython on real objects (replay of lemma/custom units)"""
+    native = True
+
+    def __init__(self):
+        self.contracts = {}
+
+    @staticmethod
+    def _wrap(f, *a, **k):
+        try:
+            return f(*a, **k)
+        except RaiseEx:
+            raise
+        except Exception as e:      # noqa: BLE001
+            raise RaiseEx(e, "native")
+
+    def call(self, f, args=(), kwargs=None):
+        return self._wrap(f, *args, **(kwargs or {}))
+
+    def call_repo_function(self, fn, args, kwargs, force_body=False):
+        return self._wrap(fn, *args, **(kwargs or {}))
+
+    def get_attr(self, o, name):
+        return self._wrap(getattr, o, name)
+
+    def set_attr(self, o, name, v):
+        return self._wrap(setattr, o, name, v)
+
+    def py_str(self, v):
+        return self._wrap(str, v)
+
+    def truth(self, v):
+        return self._wrap(bool, v)
+
+    def eq(self, a, b):
+        return self._wrap(lambda: a == b)
+
+    def contains(self, c, x):
+        return self._wrap(lambda: x in c)
+
+    def binop(self, op, a, b):
+        from .interp import BINOPS
+        return self._wrap(BINOPS[op], a, b)
+
+    def subscript(self, o, k):
+        return self._wrap(lambda: o[k])
+
+    def store_subscript(self, o, k, v):
+        def st():
+            o[k] = v
+        return self._wrap(st)
+
+    def iterate(self, it):
+        return self._wrap(list, it)
+
+
+def replay_custom(unit, model):
+    """re-run a lemma / custom unit natively on the counter-model against the real code"""
+    sym.set_ctx(None)
+    n = NativeCtx(model)
+    n.writes = []
+    ni = NativeInterp()
+    info = {"unit": unit.name, "target": unit.target, "model": model}
+    try:
+        if unit.kind == "lemma":
+            unit.lemma(n, ni)
+        else:
+            fn = resolve(unit.target) if unit.target else None
+            unit.runner(n, ni, fn)
+    except PreconditionFailed as p:
+        info["reproduced"] = False
+        info["note"] = "counter-model does not satisfy the unit's assumptions natively: %s" % (p,)
+        return info
+    except RaiseEx as e:
+        info["reproduced"] = True
+        info["native_failures"] = [{"obligation": "uncaught exception", "detail": "%s: %s" % (e.cls.__name__, e.value)}]
+        return info
+    except Exception as e:      # noqa: BLE001
+        info["reproduced"] = False
+        info["note"] = "replay harness error: %s: %s" % (type(e).__name__, e)
+        return info
+    bad = [{"obligation": nm, "detail": d} for nm, ok, d in n.proved if not ok]
+    info["native_obligations_evaluated"] = len(n.proved)
+    info["native_failures"] = bad
+    info["reproduced"] = bool(bad)
+    return info
